@@ -97,6 +97,8 @@ class C03(UdpCheck):
     ncases = {"quick": 200, "thorough": 6000}
     per_run_wall_s = 900
     chunk = 1
+    shrink_s = 20
+    max_reports = 1
     rule = ("case = one or two links with mixes of sizes / retry modes / idle periods, application update rates from 5 Hz to "
             "2 kHz (attacking the 60/s send cap), forward-path loss up to 99 % (emission, not delivery, is what matters), "
             "client restarts (new session key), per-node clock offsets, skew and forward clock steps; wrap runs emit > 65535 "
@@ -107,19 +109,53 @@ class C03(UdpCheck):
 
     def gen(self, rng, tier, i):
         wraps = (i < 2) if tier == "quick" else (i % 300 < 2)
+        capattack = (i == 2) if tier == "quick" else (i % 300 == 2)
+        if capattack:
+            # the nonce only has 16 bits of sequence number per clock second: an application that calls update()
+            # ~100 000 times a second with something queued every time must still be held to the send cap, with a
+            # silent peer (constant ack field) so that a wrap inside one second would repeat a nonce
+            case = gen_traffic(rng, i, tier, nclients=1, n_msgs=3, long_latency=False, entry="bare", settle=0.5, fault=False)
+            cfg = case["cfg"]
+            cfg["clients"][0]["dt"] = 1.1e-5
+            cfg["clients"][0]["offset"] = 1.7e9 + rng.randrange(10 ** 5) + 0.93        # the burst starts right after a second boundary
+            cfg["clients"][0]["rate"] = 1.0
+            # (a tiny message timeout keeps the client's table of unacknowledged datagrams - scanned on every
+            # update - small even if the cap is broken and it emits one datagram per update)
+            cfg["clients"][0]["msg_timeout"] = 0.01
+            cfg["server"]["interval"] = 1 / 10
+            cfg["server"]["keep_alive"] = 2.0
+            cfg["latency"], cfg["jitter"] = 0.001, 0.0
+            cfg["duration"] = 1.95
+            cfg["max_events"] = 30_000_000
+            cfg["phases"] = []
+            cfg["stream"] = {"period": 1.1e-5, "len": 0, "retry": 0, "start": 0.6, "stop": 1.9, "client_only": True}
+            case["plan"] = [{"op": "connect", "c": 0, "t": 0.0}]
+            case["capattack"] = True
+            return case
         if wraps:
             nwrap = 1 if tier == "quick" else 3
             case = gen_traffic(rng, i, tier, nclients=1, n_msgs=rng.choice([10, 40]), long_latency=False, entry="bare", settle=3.0)
             cfg = case["cfg"]
             cfg["clients"][0]["dt"] = 1 / 59
             cfg["server"]["interval"] = 1 / 59
-            dur = nwrap * 65700 / 58.9
+            dur = (nwrap + 0.15) * 65700 / 58.9        # well past the wrap: lap 2 meets the steady state of lap 1
             cfg["duration"] = dur
             cfg["stub_sleep"] = True
             cfg["max_events"] = 100_000_000
             cfg["phases"] = [{"t0": 1.0, "t1": dur, "loss": rng.choice([0.0, 0.3, 0.9]), "dst": "S"},
                              {"t0": 1.0, "t1": dur, "dup": 0.01}]
             cfg["stream"] = {"period": 1 / 70, "len": rng.choice([0, 9, 30]), "retry": 0}
+            if i % 2 == 1:
+                # lock-step flavour: the server only ever answers (echo), nothing is lost, so both sequence counters
+                # advance together and the (seq, ack) pairs of lap 2 equal those of lap 1 - only the clock field
+                # of the nonce tells the laps apart
+                cfg["phases"] = []
+                cfg["server"]["echo"] = 0
+                cfg["server"]["keep_alive"] = 2.0
+                cfg["clients"][0]["rate"] = 1.0
+                cfg["server"]["rate"] = 1.0
+                cfg["latency"], cfg["jitter"] = 0.004, 0.0
+                cfg["stream"] = {"period": 1 / 59, "len": 9, "retry": 0, "client_only": True}
             case["plan"] = [op for op in case["plan"] if op["op"] == "connect"]
             for j in range(6):
                 case["plan"].append({"op": "clockstep", "c": 0, "t": round(rng.random() * dur, 2), "d": rng.choice([0.01, 0.05])})
